@@ -275,6 +275,14 @@ def ladders(ctx, env):
         u, size = rng.choice(units)
         for x in rng.choice([(-1, -2), (-2.0, -1.0), (Decimal("-1"), Decimal("-2")), (1, 1.0, 2), (0, -0.0, 1), (-1, -2.0, -3)]):
             items.append((Q(x, u), oracle.F(x) * size))
+        # two readings a few parts in 10**10 apart, written in two different units with an exact ratio (1.0 mi and
+        # 1609.3440005 m): a million float steps apart, so no floating-point tie - exactly one of <, ==, > holds
+        if len(units) >= 2 and rng.random() < 0.6:
+            (u1, s1), (u2, s2) = rng.sample(units, 2)
+            x = rng.choice([1.0, 2.5, 100.0, 0.75, 12.0])
+            y = core.sf(Fraction(x) * s1 / s2) * (1 + rng.choice([3e-10, -3e-10, 2e-11, -5e-12]))
+            items.append((Q(x, u1), Fraction(x) * s1))
+            items.append((Q(y, u2), Fraction(y) * s2))
         ctx.count("evaluations")
         ctx.count("ladders")
         ctx.distinct(("ladder", tuple(sorted(str(q.unit) for q, _ in items)), tuple(sorted(str(q.magnitude) for q, _ in items))))
